@@ -32,6 +32,10 @@ pub struct Cfg {
     pub send_fail: Option<usize>,
     /// 0: send_to returns Err, 1: send_to yields once (Pending) before completing
     pub send_answer: u8,
+    /// the known peers are given to the builder as routers (the node never reaches Bootstrapped)
+    pub via_router: bool,
+    /// an unrelated API call (get_state) this many ms after the search started
+    pub poke_ms: Option<u64>,
     pub rng_seed: u64,
 }
 
@@ -97,7 +101,16 @@ pub fn build(cfg: &Cfg, base_sends: Option<usize>) -> (Scenario, Vec<Box<dyn Pee
         }
         peers.push(Box::new(r));
     }
-    sc.nodes.push(NodeSpec { addr: s_addr(), id: Some(InfoHash::from(s_id())), read_only: true, announce_port: None, contacts: (0..n).map(p_addr).collect(), routers: vec![], start_ms: 0 });
+    if cfg.via_router {
+        // peer 0 is the router (never admitted); the others are learned from its answers
+        sc.nodes.push(NodeSpec { addr: s_addr(), id: Some(InfoHash::from(s_id())), read_only: true, announce_port: None, contacts: vec![], routers: vec![p_addr(0).to_string()], start_ms: 0 });
+    } else {
+        sc.nodes.push(NodeSpec { addr: s_addr(), id: Some(InfoHash::from(s_id())), read_only: true, announce_port: None, contacts: (0..n).map(p_addr).collect(), routers: vec![], start_ms: 0 });
+    }
+    if let Some(p) = cfg.poke_ms {
+        sc.actions.push((When::At(T_SEARCH + p), Action::GetState { node: 0, tag: "poke".into() }));
+        sc.actions.push((When::At(T_SEARCH + p + 1), Action::LocalAddr { node: 0, tag: "poke2".into() }));
+    }
     sc.actions.push((When::At(T_SEARCH), Action::Search { node: 0, info_hash: InfoHash::from(ih()), announce: cfg.announce, tag: "search".into() }));
     sc.stop_after = vec!["search".into()];
     sc.linger_ms = 2_000;
@@ -235,7 +248,7 @@ fn beh_p(s: &str) -> Beh {
     }
 }
 fn cfg_json(c: &Cfg) -> Value {
-    json!({"peers": c.peers.iter().map(beh_s).collect::<Vec<_>>(), "chain": c.chain, "chain_end": beh_s(&c.chain_end), "announce": c.announce, "send_fail": c.send_fail, "send_answer": c.send_answer, "rng_seed": c.rng_seed})
+    json!({"peers": c.peers.iter().map(beh_s).collect::<Vec<_>>(), "chain": c.chain, "chain_end": beh_s(&c.chain_end), "announce": c.announce, "send_fail": c.send_fail, "send_answer": c.send_answer, "via_router": c.via_router, "poke_ms": c.poke_ms, "rng_seed": c.rng_seed})
 }
 fn cfg_parse(v: &Value) -> Cfg {
     Cfg {
@@ -245,6 +258,8 @@ fn cfg_parse(v: &Value) -> Cfg {
         announce: v["announce"].as_bool().unwrap_or(false),
         send_fail: v["send_fail"].as_u64().map(|x| x as usize),
         send_answer: v["send_answer"].as_u64().unwrap_or(0) as u8,
+        via_router: v["via_router"].as_bool().unwrap_or(false),
+        poke_ms: v["poke_ms"].as_u64(),
         rng_seed: v["rng_seed"].as_u64().unwrap_or(1),
     }
 }
@@ -307,15 +322,24 @@ pub fn configs(tier: Tier, seed: u64) -> Vec<Cfg> {
                 }
             }
             for announce in [false, true] {
-                out.push(Cfg { peers: peers.clone(), chain: 0, chain_end: Beh::Answers, announce, send_fail: None, send_answer: 0, rng_seed: seed });
+                out.push(Cfg { peers: peers.clone(), chain: 0, chain_end: Beh::Answers, announce, send_fail: None, send_answer: 0, via_router: false, poke_ms: None, rng_seed: seed });
             }
         }
+    }
+    // unrelated events during the search; nodes that only know routers (never "Bootstrapped", no refresh timer)
+    for via_router in [false, true] {
+        for poke in [10u64, 700, 1_499, 1_500, 1_501, 2_000, 2_990] {
+            for peers in [vec![Beh::Silent; 3], vec![Beh::Answers, Beh::Silent, Beh::Answers], vec![Beh::Answers; 2]] {
+                out.push(Cfg { peers, chain: 0, chain_end: Beh::Answers, announce: true, send_fail: None, send_answer: 0, via_router, poke_ms: Some(poke), rng_seed: seed });
+            }
+        }
+        out.push(Cfg { peers: vec![Beh::Answers; 3], chain: 2, chain_end: Beh::Silent, announce: false, send_fail: None, send_answer: 0, via_router, poke_ms: None, rng_seed: seed });
     }
     // chains of ever closer nodes
     for chain in 1..=6usize {
         for end in behs.iter() {
             for n in [1usize, 2] {
-                out.push(Cfg { peers: vec![Beh::Answers; n], chain, chain_end: end.clone(), announce: chain % 2 == 0, send_fail: None, send_answer: 0, rng_seed: seed });
+                out.push(Cfg { peers: vec![Beh::Answers; n], chain, chain_end: end.clone(), announce: chain % 2 == 0, send_fail: None, send_answer: 0, via_router: false, poke_ms: None, rng_seed: seed });
             }
         }
     }
@@ -348,9 +372,9 @@ pub fn run(tier: Tier) -> Report {
     // send failures: the k-th send after the search started fails, for every k
     let mut sf: Vec<Cfg> = vec![];
     for base in [
-        Cfg { peers: vec![Beh::Answers; 3], chain: 0, chain_end: Beh::Answers, announce: true, send_fail: None, send_answer: 0, rng_seed: seed },
-        Cfg { peers: vec![Beh::Answers, Beh::Silent], chain: 3, chain_end: Beh::Answers, announce: true, send_fail: None, send_answer: 0, rng_seed: seed },
-        Cfg { peers: vec![Beh::Silent; 2], chain: 0, chain_end: Beh::Answers, announce: false, send_fail: None, send_answer: 0, rng_seed: seed },
+        Cfg { peers: vec![Beh::Answers; 3], chain: 0, chain_end: Beh::Answers, announce: true, send_fail: None, send_answer: 0, via_router: false, poke_ms: None, rng_seed: seed },
+        Cfg { peers: vec![Beh::Answers, Beh::Silent], chain: 3, chain_end: Beh::Answers, announce: true, send_fail: None, send_answer: 0, via_router: false, poke_ms: None, rng_seed: seed },
+        Cfg { peers: vec![Beh::Silent; 2], chain: 0, chain_end: Beh::Answers, announce: false, send_fail: None, send_answer: 0, via_router: false, poke_ms: None, rng_seed: seed },
     ] {
         for k in 0..tier.pick(10, 16) {
             for ans in [0u8, 1] {
@@ -377,10 +401,10 @@ pub fn run(tier: Tier) -> Report {
     // deviations
     let fs = fates();
     let picks: Vec<Cfg> = vec![
-        Cfg { peers: vec![Beh::Answers, Beh::Answers], chain: 0, chain_end: Beh::Answers, announce: false, send_fail: None, send_answer: 0, rng_seed: seed },
-        Cfg { peers: vec![Beh::Answers, Beh::Silent, Beh::ErrorReply], chain: 0, chain_end: Beh::Answers, announce: true, send_fail: None, send_answer: 0, rng_seed: seed },
-        Cfg { peers: vec![Beh::Answers], chain: 2, chain_end: Beh::Answers, announce: false, send_fail: None, send_answer: 0, rng_seed: seed },
-        Cfg { peers: vec![Beh::Answers, Beh::Answers], chain: 4, chain_end: Beh::Silent, announce: true, send_fail: None, send_answer: 0, rng_seed: seed },
+        Cfg { peers: vec![Beh::Answers, Beh::Answers], chain: 0, chain_end: Beh::Answers, announce: false, send_fail: None, send_answer: 0, via_router: false, poke_ms: None, rng_seed: seed },
+        Cfg { peers: vec![Beh::Answers, Beh::Silent, Beh::ErrorReply], chain: 0, chain_end: Beh::Answers, announce: true, send_fail: None, send_answer: 0, via_router: false, poke_ms: None, rng_seed: seed },
+        Cfg { peers: vec![Beh::Answers], chain: 2, chain_end: Beh::Answers, announce: false, send_fail: None, send_answer: 0, via_router: false, poke_ms: None, rng_seed: seed },
+        Cfg { peers: vec![Beh::Answers, Beh::Answers], chain: 4, chain_end: Beh::Silent, announce: true, send_fail: None, send_answer: 0, via_router: false, poke_ms: None, rng_seed: seed },
     ];
     let mut levels = vec![];
     for (i, cfg) in picks.iter().enumerate() {
